@@ -305,3 +305,37 @@ func vfC13ChildBounds(c int) {
 
 func vfMinF13(a, b float64) float64 { return vfIteF(a < b, a, b) }
 func vfMaxF13(a, b float64) float64 { return vfIteF(a > b, a, b) }
+
+// ---- latitudes at and just beyond the mercator square: concrete values, every zoom ----
+// (the latitude image is transcendental: concrete runs through the real sin/log code)
+
+var vfEdgeLats = []float64{85.0511, 85.05110000000001, 85.05112, 85.0511287798, 85.05112877980659, 85.0511287798066, 85.051129, 85.05113, 85.0512, 85.06, 89.9, 90}
+
+func vfC13AtLatEdges_N(tier int) int     { return 31 }
+func vfC13AtLatEdges_Label(c int) string { return fmt.Sprintf("z=%d", c) }
+
+func vfC13AtLatEdges(c int) {
+	z := Zoom(c)
+	vfReach("lat-edges")
+	last := uint32(1)<<uint32(z) - 1
+	for _, lat := range vfEdgeLats {
+		for _, s := range []float64{1, -1} {
+			t := At([2]float64{12.5, s * lat}, z)
+			vfAssert(fmt.Sprintf("at-valid lat=%v", s*lat), t.Valid())
+			if lat > 85.0511 {
+				if s > 0 {
+					vfAssert(fmt.Sprintf("beyond-the-square-first-row lat=%v", s*lat), t.Y == 0)
+				} else {
+					vfAssert(fmt.Sprintf("beyond-the-square-last-row lat=%v", s*lat), t.Y == last)
+				}
+			}
+		}
+	}
+	// just inside: valid, and the bound's latitude range contains the latitude
+	for _, lat := range []float64{85.05, 85.0510999, -85.05, -85.0510999, 0, 66.51326044311186, -66.51326044311186} {
+		t := At([2]float64{12.5, lat}, z)
+		vfAssert(fmt.Sprintf("at-valid-inside lat=%v", lat), t.Valid())
+		b := t.Bound()
+		vfAssert(fmt.Sprintf("bound-contains-latitude lat=%v", lat), b.Min[1] <= lat+1e-9 && lat-1e-9 <= b.Max[1])
+	}
+}
